@@ -437,6 +437,99 @@ func c08Units(tier string, seed int64) []Unit {
 			}
 		}
 	}})
+	// the budget of tries per step at its edge: an action that says "not applicable" (skips before drawing) exactly k
+	// times in a row and then runs. Up to 99 refusals the step completes - the action ran, so the invariant follows and
+	// Repeat goes on; after 100 refusals in one step no action was able to run and Repeat reports that as a failure.
+	units = append(units, Unit{Name: "C08/tries-per-step-at-the-edge-of-the-budget", Run: func(c *Ctx) {
+		for _, k := range []int{0, 1, 2, 50, 98, 99, 100, 101, 150} {
+			for _, nact := range []int{1, 2} {
+				for sd := uint64(1); sd <= 6; sd++ {
+					var ev []string
+					refusals, ran := 0, 0
+					act := func(t *rapid.T) {
+						if refusals < k {
+							refusals++
+							t.Skip("not applicable yet")
+						}
+						ran++
+						ev = append(ev, "A")
+						rapid.Bool().Draw(t, "b")
+					}
+					actions := map[string]func(*rapid.T){"a": act, "": func(t *rapid.T) { ev = append(ev, "I") }}
+					if nact == 2 {
+						actions["b"] = act
+					}
+					res := rapid.VerifRunSeed(tb, sd*977+uint64(k), false, func(t *rapid.T) { t.Repeat(actions) })
+					c.R.Evals++
+					c.R.States++
+					c.R.Transitions += int64(len(ev))
+					trace := strings.Join(ev, "")
+					c.Outcome(fmt.Sprintf("k=%d actions=%d %s ran=%v", k, nact, kindName(res.Kind), ran > 0), true)
+					replay := map[string]any{"engine": "seed", "refusals": k, "actions": nact, "seed": sd*977 + uint64(k)}
+					if strings.Contains(trace, "AA") || strings.HasSuffix(trace, "A") || !strings.HasPrefix(trace, "I") {
+						c.Violate(Violation{Sig: "C08 discipline invariant-missing-after-an-action-at-the-edge-of-the-try-budget", Detail: fmt.Sprintf("%d refusals, then the action runs: trace %s (%s %q)", k, trunc(trace, 80), kindName(res.Kind), trunc(res.Msg, 80)), Replay: replay})
+					}
+					cantFind := res.Kind == rapid.VerifFail && strings.Contains(res.Msg, "can't find a valid")
+					if k < 100 && cantFind {
+						c.Violate(Violation{Sig: "C08 no-action-could-run-reported-although-one-ran", Detail: fmt.Sprintf("%d refusals in a row, then the action ran %d time(s); Repeat reported %q; trace %s", k, ran, trunc(res.Msg, 80), trunc(trace, 80)), Replay: replay})
+					}
+					if k >= 100 && ran == 0 && !cantFind && refusals >= 100 {
+						c.Violate(Violation{Sig: "C08 stuck-machine-not-reported what=100-refusals-in-one-step", Detail: fmt.Sprintf("the action refused %d times in a row and never ran; the test case ended as %s %q", refusals, kindName(res.Kind), trunc(res.Msg, 80)), Replay: replay})
+					}
+				}
+			}
+		}
+	}})
+	// one machine type used both by value and through a pointer in the same process (the method sets differ), in both orders
+	units = append(units, Unit{Name: "C08/StateMachineActions-by-value-and-by-pointer", Run: func(c *Ctx) {
+		keys := func(m map[string]func(*rapid.T)) string {
+			var ks []string
+			for k := range m {
+				ks = append(ks, fmt.Sprintf("%q", k))
+			}
+			sort.Strings(ks)
+			return strings.Join(ks, ",")
+		}
+		want := func(got map[string]func(*rapid.T), exp, how string) {
+			c.R.Evals++
+			c.R.States++
+			c.Outcome(how+": "+keys(got), true)
+			if keys(got) != exp {
+				c.Violate(Violation{Sig: "C08 reflective action-set-wrong", Detail: fmt.Sprintf("StateMachineActions(%s) has the keys %s, the method set gives %s", how, keys(got), exp)})
+			}
+		}
+		// type 1: pointer first, then value, then pointer again
+		want(rapid.StateMachineActions(&vmPtrFirst{}), `"","Add","Get"`, "&vmPtrFirst{}")
+		want(rapid.StateMachineActions(vmPtrFirst{}), `"","Get"`, "vmPtrFirst{}")
+		want(rapid.StateMachineActions(&vmPtrFirst{}), `"","Add","Get"`, "&vmPtrFirst{} again")
+		// type 2: value first, then pointer
+		want(rapid.StateMachineActions(vmValFirst{}), `"","Get"`, "vmValFirst{}")
+		want(rapid.StateMachineActions(&vmValFirst{}), `"","Add","Get"`, "&vmValFirst{}")
+		// and the actions run the methods they are named after, the invariant is Check
+		for _, how := range []string{"ptr", "val"} {
+			calls = nil
+			var acts map[string]func(*rapid.T)
+			if how == "ptr" {
+				acts = rapid.StateMachineActions(&vmPtrFirst{})
+			} else {
+				acts = rapid.StateMachineActions(vmPtrFirst{})
+			}
+			rapid.VerifRunSeed(tb, 3, false, func(t *rapid.T) {
+				for _, k := range []string{"Add", "Get", ""} {
+					if f, ok := acts[k]; ok {
+						f(t)
+					}
+				}
+			})
+			exp := "Add Get Check"
+			if how == "val" {
+				exp = "Get Check"
+			}
+			if strings.Join(calls, " ") != exp {
+				c.Violate(Violation{Sig: "C08 reflective action-runs-another-method", Detail: fmt.Sprintf("machine used by %s: calling the actions Add, Get and the invariant ran %v", how, calls)})
+			}
+		}
+	}})
 	// StateMachineActions on a reflective machine
 	units = append(units, Unit{Name: "C08/StateMachineActions", Run: func(c *Ctx) {
 		for bi, base := range []func(int) uint64{BaseZero, BaseOnes, BaseMid} {
@@ -527,3 +620,17 @@ func (m *c08Machine) Check(t *rapid.T)        { m.tr.log("I:ok") }
 func (m *c08Machine) NotAnAction(n int)       {}
 func (m *c08Machine) AlsoNot(t *testing.T)    {}
 func (m *c08Machine) NorThis() func(*rapid.T) { return nil }
+
+var calls []string
+
+type vmPtrFirst struct{ n int }
+
+func (m *vmPtrFirst) Add(t *rapid.T)  { calls = append(calls, "Add") }
+func (m vmPtrFirst) Get(t *rapid.T)   { calls = append(calls, "Get") }
+func (m vmPtrFirst) Check(t *rapid.T) { calls = append(calls, "Check") }
+
+type vmValFirst struct{ n int }
+
+func (m *vmValFirst) Add(t *rapid.T)  { calls = append(calls, "Add") }
+func (m vmValFirst) Get(t *rapid.T)   { calls = append(calls, "Get") }
+func (m vmValFirst) Check(t *rapid.T) { calls = append(calls, "Check") }
